@@ -527,7 +527,10 @@ def judgeServer (ct ot : List String) : Option Verdict := do
         | [ty, ky] =>
           match parseNatList ty, ky.toNat? with
           | some types, some k =>
-            if types.contains 11 && k ≥ 1 then none
+            -- (a cookie-verified hello that then fails negotiation — e.g. no null compression — is answered
+            -- with an alert and no ServerHello: there is no flight to look into)
+            if !types.contains 2 then none
+            else if types.contains 11 && k ≥ 1 then none
             else some ("instrumentation", "after a valid cookie no certificate / private-key operation was observed")
           | _, _ => some ("shape", "unparseable flight")
         | _ => some ("shape", "missing flight")
